@@ -189,7 +189,40 @@ pub fn selfcheck(seed: u64, n: u64) -> i32 {
     if bad > 0 {
         harness_error(&format!("{bad} nondeterministic runs"));
     }
-    println!("selfcheck: {n} engine-A scenarios deterministic");
+    println!("selfcheck: {n} engine-A scenarios deterministic (also under a different hash seed)");
+    // engine B: the same scenario twice => identical event-log digest (schedule, records, call results, clock)
+    let mut bad_b = 0;
+    for i in 0..n {
+        let rs = crate::prng::run_seed(seed, "selfcheck", "b", i);
+        let sc = gen_sched(rs, &GenOpts { prop: "C11", style: ScriptStyle::Mixed, tier: Tier::Quick, allow_abort: true, natural_divergences: true });
+        let a = crate::driver::run_isolated(&sc, rs);
+        let b = crate::driver::run_isolated(&sc, rs ^ 0x99);
+        if a.digest != b.digest || a.interleaving != b.interleaving {
+            eprintln!("NONDETERMINISM engine B run {i}: {:016x} vs {:016x}", a.digest, b.digest);
+            bad_b += 1;
+        }
+    }
+    if bad_b > 0 {
+        harness_error(&format!("{bad_b} nondeterministic engine-B runs"));
+    }
+    println!("selfcheck: {n} engine-B scenarios (4 schedules each) deterministic");
+    // engine C: same hash seed => same digest and same verdict; the history digest must not depend on the hash seed
+    let mut bad_c = 0;
+    for i in 0..n {
+        let rs = crate::prng::run_seed(seed, "selfcheck", "c", i);
+        let sc = gen_store(rs, "C14", &[Backend::HashMap, Backend::Arrow, Backend::ZarrSync]);
+        let a = crate::driver::run_isolated(&sc, rs);
+        let b = crate::driver::run_isolated(&sc, rs);
+        let c = crate::driver::run_isolated(&sc, rs ^ 0x1234);
+        if a.digest != b.digest || a.violations.len() != b.violations.len() || a.digest != c.digest {
+            eprintln!("NONDETERMINISM engine C run {i}");
+            bad_c += 1;
+        }
+    }
+    if bad_c > 0 {
+        harness_error(&format!("{bad_c} nondeterministic engine-C runs"));
+    }
+    println!("selfcheck: {n} engine-C scenarios deterministic");
     let _ = <ChainScenario as Scenario>::describe;
     0
 }
@@ -323,7 +356,7 @@ pub fn components_engine_c() -> J {
         "real_code": ["storage backends under /repo/src/storage (HashMap, ndarray, Arrow, Zarr sync) driven through StorageConfig/TraceStorage/ChainStorage (hook H2), zarrs array code, the real chains that produce the recorded histories (statistics, Progress)"],
         "stubs": ["density + expanded variables of every type/shape (harness)", "Zarr store: FaultStore over zarrs MemoryStore (write counting, k-th write fails, snapshots = what a fresh reader sees)"],
         "seams": ["hash-map iteration order: getrandom shim + fresh OS thread per run (part of the seed)", "seeded interleaving of chains, flush and inspect calls", "store trait"],
-        "not_covered": ["CSV writer; Zarr FilesystemStore; tokio-internal scheduling of the async writer (see DESIGN.md §9)"],
+        "not_covered": ["Zarr FilesystemStore; tokio-internal scheduling of the async writer (see DESIGN.md §9); CSV flush() is a no-op by design"],
     })
 }
 
@@ -404,6 +437,13 @@ fn c14(tier: Tier, seed: u64) -> i32 {
         let mut sc = gen_store(rs, "C14", &[Backend::ZarrAsync]);
         // keep the number of store writes moderate (every chunk of every variable is one write)
         sc.chunk_size = sc.chunk_size.max(2);
+        sc
+    });
+    let n3 = ctx.n(500, 50_000);
+    ctx.run_batch("csv", "same histories through the CSV backend (real files in a per-run scratch directory, precision 6/12/17, store_warmup on/off), re-parsed and compared cell by cell: the seven CmdStan statistic columns and every element of every numeric variable in row-major order, to the printed precision", n3, |rs, _| {
+        let mut sc = gen_store(rs, "C14", &[Backend::Csv]);
+        // strings with separators are not CSV-safe and not printed by this backend
+        sc.vars.retain(|v| v.ty != crate::density::VarType::Str);
         sc
     });
     ctx.finish("exploration", components_engine_c(), vec![
